@@ -271,9 +271,14 @@ func (w *World) rtStep(f *Node) bool {
 		if f.logYieldIn > 0 || !f.simLogger {
 			return false
 		}
-		if w.ch.Pick("log-yield-near", 2) == 1 {
+		switch w.ch.Pick("log-yield-near", 3) {
+		case 1:
 			f.logYieldIn = 1 + w.ch.Pick("log-yield-in", 4)
-		} else {
+		case 2:
+			// a sink that is slow on big records: the next consensus-trace record (the per-view message dump) blocks
+			f.logYieldIn = 1 << 30
+			f.logYieldTrace = true
+		default:
 			f.logYieldIn = 1 + w.ch.Pick("log-yield-in", 40)
 		}
 		w.action("arm-log-yield")
@@ -290,6 +295,8 @@ func (w *World) burstInto(f *Node) bool {
 		return false
 	}
 	f.burstDone = true
+	w.ys.arm = nil // no preemption in the middle of the burst: its oracle is "every call returns at once"
+	w.forceReleaseMain(f)
 	src := w.sent[len(w.sent)-1]
 	w.action("burst")
 	w.stats.Fault("overflow")
@@ -419,6 +426,10 @@ func (w *World) noiseInto(f *Node) bool {
 // C16: cancellation of the focus node at this step.
 
 func (w *World) cancelFocus(f *Node) {
+	// a main loop parked in the middle of an iteration goes on to a select of the library (forward to the worker or
+	// observe cancellation): with the cancellation already there that select has two ready cases and Go picks at
+	// random. The main loop therefore comes to rest at its own select before cancellation strikes.
+	w.forceReleaseMain(f)
 	w.action("cancel")
 	w.stats.Fault("cancel")
 	w.probe("nontrivial")
@@ -448,6 +459,29 @@ func (w *World) cancelFocus(f *Node) {
 		lh.WaitUntilShutdown(context.Background())
 		close(done)
 	}()
+	// A consumer call that ignores its context (a slow log sink, a proposal that arrives late) keeps the goroutine
+	// that made it alive: WaitUntilShutdown must not report completion while a goroutine the library started is
+	// still inside such a call. (The worker under select control learns about the cancellation through the hook.)
+	for i := 0; i < 1000; i++ {
+		simWait()
+		if f.ctrl == nil || !f.ctrl.shutdownStep() {
+			break
+		}
+	}
+	select {
+	case <-done:
+		for _, g := range f.gates {
+			if g.kind == "yield" && g.role == "api" {
+				continue // a consumer thread, not started by the library
+			}
+			w.violate("C16", "shutdown-reported-while-library-goroutine-alive", "WaitUntilShutdown of n%d returned while a goroutine started by the library is still inside a %s call of the consumer (h%d)", f.idx, g.kind, g.height)
+			return
+		}
+	default:
+		if len(f.gates) > 0 {
+			w.probe("shutdown-waits-for-consumer-call")
+		}
+	}
 	// SPI fakes honour their context; late-result gates are released by the consumer at shutdown.
 	// A consumer that is slow to come back (a call that ignores its context, a slow logger): with the real election
 	// timer, let the timer expire first - its goroutine then finds nobody reading the election channel - and only
@@ -536,6 +570,7 @@ func (w *World) recoveryPhase(f *Node) {
 		return // nothing was attacked in this run
 	}
 	w.recovering = true
+	w.ys.arm = nil
 	w.ev("RECOVERY begins: n%d at %v", f.idx, f.hv())
 	if f.ctrl != nil {
 		f.ctrl.hold = false
@@ -570,6 +605,9 @@ func (w *World) recoveryPhase(f *Node) {
 			continue
 		}
 		w.deliver(fl)
+	}
+	for _, n := range w.honest() {
+		w.forceReleaseMain(n)
 	}
 	if len(w.flights) > 0 {
 		w.probe("recovery-abstained-did-not-settle")
@@ -678,6 +716,7 @@ func (w *World) releaseAllGatesWith(n *Node, v GateVerdict) {
 	for _, g := range append([]*Gate(nil), n.gates...) {
 		select {
 		case g.release <- v:
+			simWait()
 		default:
 		}
 	}
@@ -708,6 +747,11 @@ func (w *World) syncBehind(f *Node) bool {
 
 func (w *World) fireAny(e *pendingEvent) {
 	n := e.timer
+	if w.forceReleaseMain(n) {
+		// a trigger is about to reach this node's main loop: it must be at its select, with nothing else pending. What
+		// the released loops did may have re-armed the timer: the event at hand is stale, the next step looks again.
+		return
+	}
 	if e.wake {
 		w.action("wake")
 		w.ev("wake n%d (timed wait inside the library)", n.idx)
@@ -736,7 +780,14 @@ func (w *World) preemptStep(f *Node) bool {
 	if !w.ys.enabled || w.ys.arm != nil {
 		return false
 	}
-	switch w.ch.Pick("preempt-kind", 3) {
+	switch w.ch.Pick("preempt-kind", 4) {
+	case 3:
+		if f.mainParked != nil {
+			return false
+		}
+		w.action("arm-yield-main")
+		w.armYield(f, "main", 1+w.ch.Pick("yield-in", 4), "")
+		return true
 	case 0, 1:
 		n := 1 + w.ch.Pick("yield-in", 6)
 		if w.ch.Pick("yield-far", 3) == 2 {
